@@ -1264,80 +1264,42 @@ def e2e_compare(ctx, name, conf, port, reqs, expect):
             e2e_judge(ctx, name, conf, h, t, want, r[0] if r else None, lambda h=h, t=t: expect(h, t))
 
 
-def run_e2e(ctx):
+def e2e_mkfiles(base, rels):
+    files = {}
+    for rel in rels:
+        p = os.path.join(base, rel)
+        os.makedirs(os.path.dirname(p), exist_ok=True)
+        marker = ("MARK:" + rel).encode()
+        with open(p, "wb") as f:
+            f.write(marker)
+        files[p.encode()] = marker
+    return files
+
+
+E2E_VHOSTS = [b"default.example", b"a.example", b"b.a.example", b"xn--e1afmkfd.example"]
+E2E_CONF_B = ('simple-vhost.server-root = "@ROOT@/vhosts/"\nsimple-vhost.default-host = "default.example"\n'
+              'simple-vhost.document-root = "/htdocs/"\n')
+E2E_CONF_C = 'evhost.path-pattern = "@ROOT@/ev/%0/%3/%{2.1}/"\n'
+
+
+def e2e_streams(bd):
+    """name -> (make a fresh server with its files, configuration text, reference expectation)"""
     from .. import e2e
-    t0 = time.time()
-    bd, err = e2e.build_server()
-    if bd is None:
-        ctx.broken.append({"kind": "e2e-build", "names": ["lighttpd"], "log": (err or "")[-3000:]})
-        return
-    rng = ctx.rng
-    nreq = n_cases(ctx, 1200)
-
-    def mkfiles(base, rels):
-        files = {}
-        for rel in rels:
-            p = os.path.join(base, rel)
-            os.makedirs(os.path.dirname(p), exist_ok=True)
-            marker = ("MARK:" + rel).encode()
-            with open(p, "wb") as f:
-                f.write(marker)
-            files[p.encode()] = marker
-        return files
-
-    def drive(name, mk, conf, reqs, expect):
-        """mk() -> a fresh Server (+ its files); a server that does not come up is retried twice on a
-        new port before it counts as a failure"""
-        last = None
-        for attempt in range(3):
-            srv = mk()
-            try:
-                srv.start()
-            except (OSError, RuntimeError) as ex:
-                last = ex
-                srv.stop()
-                continue
-            try:
-                for i in range(0, len(reqs), 25):
-                    e2e_compare(ctx, name, conf, srv.port, reqs[i:i + 25], lambda h, t: expect(srv, h, t))
-                    if not srv.alive():
-                        break
-                alive = srv.alive()
-            except OSError as ex:
-                alive = srv.alive()
-                if alive:
-                    last = ex
-                    srv.stop()
-                    continue
-            srv.stop()
-            rep = srv.sanitizer_report()
-            if rep or not alive:
-                ctx.violation("e2e:%s:sanitizer" % name, "server crashed / sanitizer report during the end-to-end "
-                              "stream (%s)" % name, {"property": ctx.pid, "kind": "e2e-sanitizer", "stream": name,
-                                                      "config": conf, "report": (rep or srv.logs())[-3000:]})
-            return
-        ctx.broken.append({"kind": "e2e-run", "names": [name], "log": str(last)[-2000:]})
-
-    # A: rewrite / redirect / alias
     conf_a = e2e_conf_a()
 
     def mk_a():
         srv = e2e.Server(bd, conf_a, modules=("mod_rewrite", "mod_redirect", "mod_alias"))
-        srv.files = mkfiles(srv.docroot, E2E_FILES)
-        srv.files.update(mkfiles(srv.root, E2E_ALIASED))
+        srv.files = e2e_mkfiles(srv.docroot, E2E_FILES)
+        srv.files.update(e2e_mkfiles(srv.root, E2E_ALIASED))
         return srv
 
-    drive("rules", mk_a, conf_a, e2e_requests(rng, nreq),
-          lambda srv, h, t: e2e_expect_a(srv.root, srv.docroot, srv.port, h, t, srv.files))
-
-    # B: simple-vhost
-    conf_b = ('simple-vhost.server-root = "@ROOT@/vhosts/"\nsimple-vhost.default-host = "default.example"\n'
-              'simple-vhost.document-root = "/htdocs/"\n')
-    vh = [b"default.example", b"a.example", b"b.a.example", b"xn--e1afmkfd.example"]
+    def expect_a(srv, h, t):
+        return e2e_expect_a(srv.root, srv.docroot, srv.port, h, t, srv.files)
 
     def mk_b():
-        srv = e2e.Server(bd, conf_b, modules=("mod_simple_vhost",))
-        srv.files = mkfiles(srv.root, ["vhosts/%s/htdocs/index.txt" % h.decode() for h in vh] + ["docroot/index.txt"])
+        srv = e2e.Server(bd, E2E_CONF_B, modules=("mod_simple_vhost",))
+        srv.files = e2e_mkfiles(srv.root, ["vhosts/%s/htdocs/index.txt" % h.decode() for h in E2E_VHOSTS] +
+                                ["docroot/index.txt"])
         return srv
 
     def expect_b(srv, host, target):
@@ -1352,18 +1314,10 @@ def run_e2e(ctx):
                 return ("file", srv.files[p]) if p in srv.files else ("status", 404)
         raise Abstain
 
-    hosts_b = vh + [b"A.Example", b"a.example:8080", b"unknown.example", b"b.a.example:1", b"a.example.", b"example",
-                    b"default.example:80", b"B.A.EXAMPLE"]
-    drive("simple-vhost", mk_b, conf_b, [(rng.choice(hosts_b), b"/index.txt") for _ in range(max(60, nreq // 8))],
-          expect_b)
-
-    # C: evhost
-    conf_c = 'evhost.path-pattern = "@ROOT@/ev/%0/%3/%{2.1}/"\n'
-
     def mk_c():
-        srv = e2e.Server(bd, conf_c, modules=("mod_evhost",))
-        srv.files = mkfiles(srv.root, ["ev/domain.tld/sub1/d/index.txt", "ev/domain.tld/d/index.txt",
-                                       "ev/other.org/www/o/index.txt", "docroot/index.txt"])
+        srv = e2e.Server(bd, E2E_CONF_C, modules=("mod_evhost",))
+        srv.files = e2e_mkfiles(srv.root, ["ev/domain.tld/sub1/d/index.txt", "ev/domain.tld/d/index.txt",
+                                           "ev/other.org/www/o/index.txt", "docroot/index.txt"])
         return srv
 
     def expect_c(srv, host, target):
@@ -1379,11 +1333,67 @@ def run_e2e(ctx):
         p = re.sub(rb"/+", b"/", root) + b"index.txt"
         return ("file", srv.files[p]) if p in srv.files else ("status", 404)
 
+    return {"rules": (mk_a, conf_a, expect_a), "simple-vhost": (mk_b, E2E_CONF_B, expect_b),
+            "evhost": (mk_c, E2E_CONF_C, expect_c)}
+
+
+def e2e_drive(ctx, name, mk, conf, reqs, expect):
+    """mk() -> a fresh Server (+ its files); a server that does not come up is retried twice on a
+    new port before it counts as a failure"""
+    last = None
+    for attempt in range(3):
+        srv = mk()
+        try:
+            srv.start()
+        except (OSError, RuntimeError) as ex:
+            last = ex
+            srv.stop()
+            continue
+        try:
+            for i in range(0, len(reqs), 25):
+                e2e_compare(ctx, name, conf, srv.port, reqs[i:i + 25], lambda h, t: expect(srv, h, t))
+                if not srv.alive():
+                    break
+            alive = srv.alive()
+        except OSError as ex:
+            alive = srv.alive()
+            if alive:
+                last = ex
+                srv.stop()
+                continue
+        srv.stop()
+        rep = srv.sanitizer_report()
+        if rep or not alive:
+            ctx.violation("e2e:%s:sanitizer" % name, "server crashed / sanitizer report during the end-to-end "
+                          "stream (%s)" % name, {"property": ctx.pid, "kind": "e2e-sanitizer", "stream": name,
+                                                  "config": conf, "report": (rep or srv.logs())[-3000:]})
+        return
+    ctx.broken.append({"kind": "e2e-run", "names": [name], "log": str(last)[-2000:]})
+
+
+def run_e2e(ctx):
+    from .. import e2e
+    t0 = time.time()
+    bd, err = e2e.build_server()
+    if bd is None:
+        ctx.broken.append({"kind": "e2e-build", "names": ["lighttpd"], "log": (err or "")[-3000:]})
+        return
+    rng = ctx.rng
+    nreq = n_cases(ctx, 1200)
+    nv = max(60, nreq // 8)
+    st = e2e_streams(bd)
+    hosts_b = E2E_VHOSTS + [b"A.Example", b"a.example:8080", b"unknown.example", b"b.a.example:1", b"a.example.",
+                            b"example", b"default.example:80", b"B.A.EXAMPLE"]
     hosts_c = [b"sub1.domain.tld", b"x.sub1.domain.tld", b"domain.tld", b"www.other.org:81", b"Sub1.Domain.TLD", b"tld",
                b"a.b.sub1.domain.tld:8080", b"nosuch.example", b"www.other.org", b"sub2.domain.tld"]
-    drive("evhost", mk_c, conf_c, [(rng.choice(hosts_c), b"/index.txt") for _ in range(max(60, nreq // 8))], expect_c)
+    reqs = {"rules": e2e_requests(rng, nreq),
+            "simple-vhost": [(rng.choice(hosts_b), b"/index.txt") for _ in range(nv)],
+            "evhost": [(rng.choice(hosts_c), b"/index.txt") for _ in range(nv)]}
+    for name in ("rules", "simple-vhost", "evhost"):
+        mk, conf, expect = st[name]
+        e2e_drive(ctx, name, mk, conf, reqs[name], expect)
     ctx.streams.append({"name": "end-to-end (real lighttpd: rewrite/redirect/alias, simple-vhost, evhost)",
-                        "cases": nreq + 2 * max(60, nreq // 8), "wall_s": round(time.time() - t0, 2)})
+                        "cases": nreq + 2 * nv, "wall_s": round(time.time() - t0, 2)})
 
 
 def run(ctx):
@@ -1417,6 +1427,35 @@ def run(ctx):
                         "the vhost modules' stat() of the composed directory is outside the model",
                         "after a rewrite the enclosing condition's captures (%N) are kept (in the server the "
                         "conditions are re-evaluated against the rewritten URL)"]
+
+
+def replay(ctx, path):
+    """check.py C20 --replay <file>"""
+    import json
+    from .. import e2e
+    rep = json.load(open(path))
+    print(json.dumps({k: rep[k] for k in rep if k not in ("log", "config")}, indent=1)[:4000])
+    kind = rep.get("kind")
+    if kind in ("correspondence", "property-oracle", "sanitizer-or-crash"):
+        ctx.lean(())
+        return replay_line(ctx, rep)
+    if kind == "e2e-oracle" and "target" in rep:
+        bd, err = e2e.build_server()
+        if bd is None:
+            print("cannot build the server:", (err or "")[-1000:])
+            return 1
+        mk, conf, expect = e2e_streams(bd)[rep["stream"]]
+        e2e_drive(ctx, rep["stream"], mk, conf, [(rep["host"].encode("latin-1"), rep["target"].encode("latin-1"))],
+                  expect)
+        for sig, what, r, found in ctx.violations:
+            print("expected:", r.get("expected"), "\ngot     :", r.get("got"))
+            print("oracle:", what)
+        if ctx.violations or ctx.broken:
+            print("VIOLATION property=%s replay=%s" % (ctx.pid, "(replayed)"))
+            return 1
+        print("no violation on this tree")
+        return 0
+    return 0
 
 
 def replay_line(ctx, rep):
